@@ -35,7 +35,7 @@ LEVEL_TEXT = ("Machine-checked proof (Lean 4): for every byte string (length + 4
               "stack, the complete number parser) accepts iff the RFC 8259 spec does (C01_accept_iff), success offset = length, failure => null "
               "document, parse code, offset <= length (C01_fail_shape); code/offset/tree are independent of the uninitialised memory "
               "(C01_pad_irrelevant) and of the width except inside a malformed string literal (C01_width_irrelevant). "
-              "The only number-related hypothesis left is the decidable guard ExpSmall (each number-like token is at most 9600 bytes long or has a written exponent below 100000 in absolute value - so every text of at most 9600 bytes satisfies it; known finding F6 lives outside it) - the number model itself is proved against the exact reference for every conversion path (C04). The model is tied to the compiled code by the correspondence run (exact code and offset per width) and the SIMD/in-body "
+              "No hypothesis about numbers is left: the number model is proved against the exact reference for every conversion path and every written exponent (C04, after the fix of finding F6); the only size bound is length + 4 < 2^32. The model is tied to the compiled code by the correspondence run (exact code and offset per width) and the SIMD/in-body "
               "constants extracted from the source (simd_consts, parse_consts, scan_consts).")
 LEVEL_NOTE = "Trusted: Lean kernel; standard axioms; compiled Lean evaluation of the spec; harness."
 TECHNIQUE = "Lean 4 whole-parser refinement proof (model = RFC 8259 spec) + source-constant theorems + differential correspondence"
